@@ -241,6 +241,22 @@ def idem_worker(cfg):
                 errs.append((f"idem:{tag}:running-again-changes-results-or-evaluates", f"iteration {it0}->{fs.ns.iteration}, evaluations {ev0}->{model.likelihood_evaluations}, logZ {z0!r}->{float(fs.logZ)!r} config={cfg}"))
         except Exception as e:
             errs.append((f"idem:{tag}:running-again-raises-{type(e).__name__}", f"{e} config={cfg}"))
+        # a later call asking for another posterior sampling method must honour it: multinomial
+        # resampling returns int(ESS) draws (rows of the nested samples), whatever was drawn before
+        if not capped:
+            try:
+                n_before = len(np.asarray(fs.posterior_samples))
+                fs.run(plot=False, save=False, posterior_sampling_method="multinomial_resampling")
+                n += 1
+                lw_ = np.asarray(fs.ns.state.log_posterior_weights if cfg["kind"] == "std" else fs.ns.samples_unit["logW"] + fs.ns.samples_unit["logL"], dtype=float)
+                ess_ = kish(lw_)
+                n_post = len(np.asarray(fs.posterior_samples))
+                if abs(n_post - ess_) >= 1.0 + 1e-6 or n_post > ess_ + 1e-6:
+                    errs.append((f"idem:{tag}:a-later-run-with-another-posterior-method-is-not-honoured", f"multinomial resampling requested on the second call: {n_post} posterior samples, int(ESS) = {int(ess_)} (first call, rejection sampling: {n_before}) config={cfg}"))
+                if float(fs.logZ) != z0 or np.asarray(fs.nested_samples).tobytes() != s0 or model.likelihood_evaluations != ev0:
+                    errs.append((f"idem:{tag}:running-again-changes-results-or-evaluates", f"third call config={cfg}"))
+            except Exception as e:
+                errs.append((f"idem:{tag}:running-again-with-another-posterior-method-raises-{type(e).__name__}", f"{e} config={cfg}"))
         # resume from the final checkpoint (fresh process state: fresh model object)
         runs.reset_globals()
         kw = (runs.std_base if cfg["kind"] == "std" else runs.ins_base)(cfg.get("seed", 0), **cfg.get("kwargs", {}))
